@@ -34,7 +34,9 @@ theorem ProvTie_slot (fs : FS) (sl : Slot) : slotGen fs sl = (Slot.resolve fs sl
   cases h : sl.res <;> simp [globGen, dirCollect]
 
 /-- `recreate_dag`: `session.dag = create_dag_from_session(session)`, then the scheduler from the new DAG and the running
-scheduler; on an exception a FAIL report for the task is appended and `should_stop` is set (the already assigned DAG stays). -/
+scheduler; the `skip_ancestor_failed` marks are renewed below the reports with the extracted outcomes — FAIL and, since 501f7e1,
+SKIP_PREVIOUS_FAILED —; on an exception a FAIL report for the task is appended and `should_stop` is set (the already assigned
+DAG stays). -/
 theorem ProvTie_recreate (s : Prov.Sess) (t : Nat) : recreateGen s t = recreate s t := by
   unfold recreateGen recreate
   simp only [recreateTry, tryRun, recreateCatches, recreateHandler]
@@ -44,8 +46,8 @@ theorem ProvTie_recreate (s : Prov.Sess) (t : Nat) : recreateGen s t = recreate 
     obtain ⟨g, m⟩ := gm
     simp only []
     cases h2 : Sorter.fromDagAndSorter g isTaskV prio0 s.so with
-    | error e => simp [handlerRun, renewFailMarks]
-    | ok so => rfl
+    | error e => simp [handlerRun, renewFailMarks, rootOutcome, renewMarks]
+    | ok so => simp [renewFailMarks, rootOutcome, renewMarks]
 
 theorem slots_resolve (fs : FS) (slots : List Slot) :
     (slots.map (slotGen fs)).map (·.1) = slots.map (Slot.resolve fs) ∧
